@@ -220,11 +220,16 @@ func c19TokenAgreement(r *an.Run) {
 	if f := fn(r, sectRel, "programSplitter.next"); f != nil {
 		var loop *an.Loop
 		for _, l := range an.Loops(f) {
-			loop = l
+			if loop == nil || len(l.Blocks) > len(loop.Blocks) {
+				loop = l // the per-line loop is the outermost one (skipping to the end of the line may be a loop inside it)
+			}
 		}
 		if r.Check(loop != nil, short(f)+"|line-loop", f.Pos(), "next() loops over lines") {
 			var so, tx, ps *ssa.Store
 			for b := range loop.Blocks {
+				if in := an.LoopOf(f, b); in == nil || in.Header != loop.Header {
+					continue
+				}
 				for _, in := range b.Instrs {
 					if st, ok := in.(*ssa.Store); ok {
 						switch an.Path(st.Addr) {
@@ -239,7 +244,7 @@ func c19TokenAgreement(r *an.Run) {
 				}
 			}
 			if r.Check(so != nil && tx != nil && ps != nil, short(f)+"|per-line-state", f.Pos(), "startOffset, text and pos are (re)assigned inside the per-line loop: a header preceded by comment lines is still described by its own line") {
-				r.Check(an.Path(so.Val) == "p.offset" && so.Block() == tx.Block() && so.Block() == ps.Block() && an.InstrBlockIndex(so) < an.InstrBlockIndex(tx),
+				r.Check(an.Path(so.Val) == "p.offset" && an.InstrDominates(so, tx) && an.InstrDominates(so, ps) && (tx.Block() == ps.Block() || tx.Block().Dominates(ps.Block()) || ps.Block().Dominates(tx.Block())),
 					short(f)+"|assigned-together", so.Pos(), "the three are assigned together, startOffset first, from the offset at which the line begins")
 				// "the start offset": a load of p.startOffset, or the very value that was stored into it
 				isStart := func(v ssa.Value) bool { return an.Path(v) == "p.startOffset" || v == so.Val }
